@@ -10,6 +10,18 @@ Case formats (see harness/ext/src/bin/c16.rs):
   3 n              n tasks in accepted_0rtt() on clones of a 0.5-RTT server connection
   4 len stop_after the reader stops a uni stream after stop_after bytes (stream window 1000)
   5 n dlen sendbuf n datagrams of dlen bytes through send_datagram_wait with a send buffer of sendbuf bytes
+  6 len hdr mode wchunk pre_cap delay
+                   the first hdr bytes of a len-byte stream are consumed with read (mode 0) / read_chunk
+                   (mode 1), the rest with read_to_end into Vec::with_capacity(pre_cap); the reader starts
+                   delay ms late
+  7 bidi max rounds written observe len2
+                   rounds streams are written to (written bytes, not finished), stopped by the peer and
+                   then dropped without reset()/finish() (observe 0: after stopped() reported the stop,
+                   1: after a write failed with Stopped, 2: after 20 ms); max concurrent streams; a last
+                   stream carries len2 bytes
+
+Kind 2 also keeps three spawned tasks in send_datagram_wait on a full 1200-byte datagram send buffer
+and closes at a moment when the hook shows them parked.
 """
 import random
 
@@ -54,15 +66,24 @@ def gen_data(r, big):
 
 def gen_case(r):
     x = r.random()
-    if x < 0.62:
+    if x < 0.42:
         return gen_data(r, big=False)
-    if x < 0.70:
+    if x < 0.48:
         return gen_data(r, big=True)
-    if x < 0.86:
+    if x < 0.62:
         return [2, r.randint(0, 3)]
-    if x < 0.91:
+    if x < 0.76:
+        ln = r.choice([1, 300, 5000, 20000, 70000, 200000])
+        hdr = r.choice([h for h in (0, 1, 1, 4, 4, 100, 100, 1200, 1200, 5000, ln, ln) if h <= ln])
+        return [6, ln, hdr, r.randint(0, 1), r.choice([7, 1000, 16384]) if ln <= 5000 else r.choice([1000, 16384]),
+                r.choice([0, 0, 10, 1000, ln // 2, ln, 2 * ln]), r.choice([0, 0, 5, 30])]
+    if x < 0.90:
+        mx = r.choice([1, 1, 2])
+        return [7, r.randint(0, 1), mx, mx + r.choice([1, 2, 4]), r.choice([1, 10, 500, 900]), r.randint(0, 2),
+                r.choice([0, 100, 5000, 70000])]
+    if x < 0.93:
         return [3, r.randint(1, 5)]
-    if x < 0.96:
+    if x < 0.97:
         ln = r.choice([300, 5000, 50000])
         return [4, ln, r.choice([x for x in (0, 1, 200, 700, 2000, 10000) if x < ln])]
     return [5, r.choice([1, 10, 40]), r.choice([0, 100, 1000]), r.choice([1200, 3000, 100000])]
@@ -86,6 +107,10 @@ def describe(case):
             return "stop-sending"
         if case[0] == 5:
             return "datagrams/small-send-buffer" if case[3] < 10000 else "datagrams"
+        if case[0] == 6:
+            return "read_to_end-after-%s" % ("nothing" if case[2] == 0 else ("read" if case[3] == 0 else "read_chunk"))
+        if case[0] == 7:
+            return "drop-stopped-%s/%s" % ("bidi" if case[1] else "uni", ["after-stopped()", "after-write-error", "after-20ms"][case[5]])
     except IndexError:
         pass
     return "malformed"
